@@ -218,6 +218,7 @@ func encodableArgs(args []string) bool {
 
 func runC11(t failer, c c11Case) {
 	ev.Eval()
+	journal("C11", c)
 	c.Cfg.Restore()
 	fail := func(sig, format string, args ...interface{}) {
 		violation(t, "C11", "author", "C11:"+sig, c, format, args...)
